@@ -67,6 +67,34 @@ def run(ctx):
         ctx.check("C12.order", not ups, w, "%s.send never delivers upward" % c.name,
                   "while the upper layer's lock is held (toLower), %s: a handler that answers would re-acquire that lock on the same thread and block forever" % "; ".join(ups[:3]),
                   "%d method(s) reachable from send, none delivers upward or takes the flush lock" % len(reach))
+    # events raised from inside a send: a dispatcher whose sendData can report a failure synchronously (it calls
+    # connectionCallbacks.X() from code reachable from sendData) runs the network layer's callback X while every upper
+    # layer's lock is held by the sending thread; an event emitted there must be detached (deferred to the stack loop),
+    # otherwise the upper layers' handlers - which reconnect or send - run under those locks and never come back
+    net = repo.cls("yowsup/layers/network/layer.py", "YowNetworkLayer")
+    sync_cbs = {}
+    for m in repo.modules.values():
+        if not m.relpath.startswith("yowsup/layers/network/dispatcher/"):
+            continue
+        for dc in m.classes.values():
+            if "sendData" not in dc.methods:
+                continue
+            for name, (k, fn) in reach_self_calls(repo, dc, "sendData").items():
+                for n in ast.walk(fn):
+                    if isinstance(n, ast.Call) and isinstance(n.func, ast.Attribute) and isinstance(n.func.value, ast.Attribute) and n.func.value.attr == "connectionCallbacks":
+                        sync_cbs.setdefault(n.func.attr, "%s.%s" % (dc.name, name))
+    n_emit = 0
+    for cb, via in sorted(sync_cbs.items()):
+        for name, (k, fn) in reach_self_calls(repo, net, cb).items():
+            for n in ast.walk(fn):
+                if isinstance(n, ast.Call) and is_self_attr(n.func) and n.func.attr in ("emitEvent", "broadcastEvent") and n.args:
+                    ev = n.args[0]
+                    det = isinstance(ev, ast.Call) and any(kw.arg == "detached" and isinstance(kw.value, ast.Constant) and kw.value.value is True for kw in ev.keywords)
+                    n_emit += 1
+                    ctx.check("C12.order", det, where(net.relpath, "YowNetworkLayer." + name, n.lineno), n,
+                              "this event can be raised from inside a send (%s reports %s synchronously) while every upper layer's lock is held, and it is not detached: the handlers above (reconnect, send) run under those locks - the failed send never returns and every other sender blocks" % (via, cb),
+                              "detached: delivered by the stack loop, not under the sender's locks")
+    ctx.units["C12.sync_callbacks"] = sorted(sync_cbs)
     # the ping lock guards plain dictionary operations only
     iq = repo.cls("yowsup/layers/protocol_iq/layer.py", "YowIqProtocolLayer")
     for name in ("gotPong", "waitPong"):
